@@ -86,7 +86,7 @@ def gen_call(rng, P, mod, depth, scope, ids, ctor=None, width=None):
         call["single"] = rng.choice(seqs)
         call["list"] = pick(tensors + seqs, 0, 3)
     else:
-        call["cond"] = rng.choice(["top", "constTrue", "constFalse"])
+        call["cond"] = rng.choice(["top"] + [x for x in P.IF_COND[1:]])
         call["n"] = rng.choice([1, 1, 2, 3])
     presc = P.prescription(case_like(call))
     call["bodies"] = {}
@@ -221,7 +221,9 @@ def run_program(env, prog, steps=STEPS):
         elif ctor == "sequence_map":
             outs = f(values[tuplify(call["single"]["ref"])], lst, body=cbs["body"])
         else:
-            c = b_arg if call["cond"] == "top" else op.const(np.array(call["cond"] == "constTrue"))
+            from harness.props import c19 as P_
+
+            c = b_arg if call["cond"] == "top" else P_.known_value(env, op, *P_.split_known(call["cond"]))
             outs = f(c, then_branch=cbs["then_branch"], else_branch=cbs["else_branch"])
         outs = list(outs)
         call_outs.append((call, len(outs)))
